@@ -25,7 +25,8 @@ class CropMachine:
     NAME = "crp"
 
     def __init__(self, ctx, kinds=None, max_n=40, farmer_roles=None, max_batches=None,
-                 world_cfg=None, allow_cases=True, ext_choice=True, name_choice=False):
+                 world_cfg=None, allow_cases=True, ext_choice=True, name_choice=False,
+                 arg_pool=None):
         import xyzpy  # noqa - after interpose.install()
 
         self.ctx = ctx
@@ -50,7 +51,8 @@ class CropMachine:
         simexec.bind(t, ctx.stats, default={
             "boundary": t.pick(["process", "thread"], "ex-boundary")})
         sc = G.Scenario()
-        sc.sweep = G.gen_sweep(t, max_n=max_n, kinds=kinds, allow_cases=allow_cases)
+        sc.sweep = G.gen_sweep(t, max_n=max_n, kinds=kinds, allow_cases=allow_cases,
+                               arg_pool=arg_pool)
         sc.kind = sc.sweep.kind
         sc.N = sc.sweep.n()
         sc.batching = G.gen_batching(t, sc.N)
@@ -346,7 +348,9 @@ def concurrent_grow(m):
 def run_c04(ctx):
     """sow / grow (any order, grouping, repetition, parallel) / reap == direct"""
     deep = ctx.params.get("tier") == "thorough"
-    m = CropMachine(ctx, max_n=64 if deep else 40)
+    # (argument names: also ones the library uses for its own parameters)
+    m = CropMachine(ctx, max_n=64 if deep else 40,
+                    arg_pool=G.ARG_POOL + ["self", "fn", "crop"])
     t = ctx.tape
     m.sow()
     sw = m.sc.sweep
